@@ -5,6 +5,7 @@ implementation's own artefacts, and the occurrence oracles (C01–C09).
 -/
 import Driver.Dump
 import PmVerif.Model.ManyMatcher
+import PmVerif.Model.BuilderT
 import PmVerif.Spec.Occurs
 import PmVerif.Spec.MatRun
 namespace Drv
@@ -144,7 +145,7 @@ def handleE2E {K V P H M Pat} [DecidableEq K] [DecidableEq V] [DecidableEq P]
     | some cv, some p => some (i, cv, dom.extraKeys p)
     | _, _ => none
   -- the replay follows the Rust code (no make_det guard) and must reproduce the dump exactly
-  match Automaton.buildL dom.toTree dom.D.req FUEL inputs evs with
+  match Automaton.buildTL dom.toTree dom.D.req FUEL inputs evs with
   | .error e => out := { out with dis := out.dis ++ [s!"BUILD.replay model-error {e}"] }
   | .ok a =>
     match compareWithDump a dump with
@@ -154,7 +155,7 @@ def handleE2E {K V P H M Pat} [DecidableEq K] [DecidableEq V] [DecidableEq P]
   -- fires, this build is outside the region the theorem covers: search the dumped automaton
   -- (model traversal, which the RUN stage ties to the implementation) for a failing host.
   let mut guardHit := false
-  match Automaton.build dom.toTree dom.D.req FUEL inputs evs with
+  match Automaton.buildT dom.toTree dom.D.req FUEL inputs evs with
   | .ok _ => pure ()
   | .error _ =>
     guardHit := true
